@@ -103,6 +103,12 @@ fn gen_case(c: &mut Chooser) -> Case {
     files.insert("src/climb/deep/frags.graphql".into(), "fragment ClimbNear on User {\n  id\n}\n".into());
     files.insert("src/climb/frags.graphql".into(), "fragment ClimbFar on User {\n  age\n}\n".into());
     files.insert("src/leaf/c.graphql".into(), "fragment Leaf on User {\n  name\n}\nfragment LeafUnused on User { age }\n".into());
+    // names that are ordinary on POSIX but special elsewhere: a backslash in a directory and in a file name, a space
+    if c.flag("names.backslash-and-space") {
+        files.insert("src/odd\\dir/back\\slash op.graphql".into(), "#import OddFrag from \"./frag\\\\ments.graphql\"\nquery OddNames {\n  me { ...OddFrag }\n}\n".into());
+        files.insert("src/odd\\dir/frag\\ments.graphql".into(), "fragment OddFrag on User {\n  id\n}\n".into());
+        tags.push("backslash-and-space-in-names".into());
+    }
     match c.choose("unicode", 2) {
         0 => {}
         _ => {
